@@ -882,6 +882,20 @@ func (r *sessRun) quiesce() {
 			last, stable = now, 0
 		}
 	}
+	// a session that has reached a closed state has completed every call: the observer goroutines that note
+	// the completions may lag behind the Close() / disconnect that caused them, so they are awaited (bounded)
+	if st := erpc.VerifStatus(r.sess); st == 3 || st == 5 {
+		WaitUntil(2*time.Second, func() bool {
+			for _, co := range r.calls {
+				select {
+				case <-co.done:
+				default:
+					return false
+				}
+			}
+			return true
+		})
+	}
 	pendingCalls := []string{}
 	for c, co := range r.calls {
 		select {
